@@ -111,16 +111,19 @@ class SymCtx(_Base):
                 core.ENG.assume(x.e < hi if hi_strict else x.e <= hi)
         return x
 
-    def integer(self, name, lo=None, hi=None):
+    def integer(self, name, lo=None, hi=None, key=False, unbounded=False):
+        """unbounded=True: lo/hi only guide the float-mode sampler; the solver variable ranges over all integers."""
         assert name not in self.inputs, name
         v = z3.Int(name)
         self.inputs[name] = [v]
         self.kinds[name] = 'int'
+        if unbounded:
+            return core.SIK(v) if key else SI(v)
         if lo is not None:
             core.ENG.assume(v >= lo)
         if hi is not None:
             core.ENG.assume(v <= hi)
-        return SI(v)
+        return core.SIK(v) if key else SI(v)
 
     def assume(self, c):
         core.ENG.assume(c)
@@ -260,7 +263,7 @@ class FloatCtx(_Base):
             return complex(v[0], v[1])
         return float(self._vals(name, 1, lo=lo, hi=hi)[0])
 
-    def integer(self, name, lo=None, hi=None):
+    def integer(self, name, lo=None, hi=None, key=False, unbounded=False):
         return int(self._vals(name, 1, lo=lo if lo is not None else -3, hi=hi if hi is not None else 3, integer=True)[0])
 
     def assume(self, c):
